@@ -2,10 +2,12 @@ package main
 
 import (
 	"bytes"
+	"encoding"
 	"encoding/json"
 	"fmt"
 	"hash/fnv"
 	"math"
+	"os"
 	"reflect"
 	"sort"
 
@@ -48,6 +50,11 @@ func init() {
 			}
 			for _, c := range umCorpusExtra() {
 				out = append(out, runC12(c12Desc{Case: c})...)
+			}
+			// corpus: F16 - an array-typed field in a library document, at the top and in a cause below a foreign wrapper
+			for _, strict := range []bool{true, false} {
+				out = append(out, runC12(c12Desc{Lib: true, Case: UCase{Cfg: UCfg{Defs: []UDef{{Kind: "k1", Keys: []int{28}}}, Reg: []int{0}, Strict: strict},
+					Bytes: `{"message":"m","kind":"k1","fields":{"arr":[1,2]},"causes":[{"message":"w: deep","type":"*fmt.wrapError","causes":[{"message":"deep","kind":"k1","fields":{"arr":[0,0]}}]}]}`}})...)
 			}
 			// corpus: K11 - a definition with the EMPTY kind is registered; a cause that cannot be resolved
 			for _, strict := range []bool{true, false} {
@@ -132,7 +139,7 @@ func runC12(d c12Desc) []Case {
 			// n as the JSON decoder hands it to unmarshal, and strconv on the float32 values bound in r:
 			// validation of Model/Redoc.redoc (Check/C12.ndd_ok)
 			var nd unmarshaler.DecodedData
-			if json.Unmarshal(n, &nd) == nil {
+			if json.Unmarshal(n, &nd) == nil && !hasSelfMarshalingField(res) {
 				ndd = ddCoq(&nd, w.targets)
 			}
 			tbl := map[uint32]uint64{}
@@ -156,6 +163,9 @@ func runC12(d c12Desc) []Case {
 			}
 			if d.Lib {
 				lib = "(Some " + cBool(jsonEqual(n, []byte(d.Case.Bytes))) + ")"
+				if os.Getenv("VERIF_DEBUG_C12") != "" {
+					fmt.Fprintf(os.Stderr, "x = %s\nn = %s\n", d.Case.Bytes, n)
+				}
 			}
 			// the document n is itself an input whose unmarshaling is compared with the model
 			c2, _ := runUMFull(UCase{Cfg: d.Case.Cfg, Bytes: string(n)})
@@ -198,6 +208,28 @@ func runC12(d c12Desc) []Case {
 		out = append(out, s)
 	}
 	return out
+}
+
+// hasSelfMarshalingField: some typed field value of the restored tree writes its own JSON (json.Marshaler /
+// encoding.TextMarshaler, e.g. slog.Level - finding K2): Model/Redoc.redoc describes scalars that encoding/json
+// writes by kind only, so the document is not compared with it
+func hasSelfMarshalingField(e error) bool {
+	ue, ok := e.(unmarshaler.UnmarshaledError)
+	if !ok {
+		return false
+	}
+	for _, fv := range ue.Fields().All() {
+		switch fv.Value().(type) {
+		case json.Marshaler, encoding.TextMarshaler:
+			return true
+		}
+	}
+	for _, c := range ue.Unwrap() {
+		if hasSelfMarshalingField(c) {
+			return true
+		}
+	}
+	return false
 }
 
 // collectF32: every finite float32 value bound in a restored error (all nodes), with the bits of the
